@@ -4,6 +4,6 @@ CONSTANTS
   Late = {}
   NReq = 1
   Interrupts = FALSE
-  FuseFdEdge = FALSE
+  Mut = "none"
   UmountWaits = FALSE
 INVARIANTS TypeOK DeliveredOnce BufferIsRequest ExitWins NoneJustified NoLostWake NoLostReadiness ResultsAllowed NothingLost
